@@ -4,6 +4,8 @@ Events: file text before / after a real `fix` run.  Oracle: content fingerprints
 computed by the independent implementation) of before and after are equal, and no text character is
 dropped or duplicated.  Configurations: default rule set and one fix-capable rule alone (index-chosen).
 """
+import collections
+
 from vf import universe as U
 from vf.checks import parserlevel as PL
 
@@ -76,12 +78,22 @@ def run_items(items, job):
                 R.skip("oracle-error:" + type(e).__name__)
                 continue
             d = fingerprint.first_difference(a, b)
+            # letters and digits can never legitimately appear, disappear or be duplicated (markers may
+            # move between text and markup, so they are not counted here)
+            ca = collections.Counter(ch for ch in doc if ch.isalnum())
+            cb = collections.Counter(ch for ch in after if ch.isalnum())
+            if ca - cb:
+                v.add(f"{name}:letters-or-digits-lost")
+            if cb - ca:
+                v.add(f"{name}:letters-or-digits-added")
             if d is not None:
                 i, x, y = d
                 v.add(f"{name}:{_kind(x)}->{_kind(y)}")
                 detail["configs"][name] = {"fixed": after, "first_difference": [i, x, y]}
             elif fingerprint.text_chars(a) != fingerprint.text_chars(b):
                 v.add(f"{name}:text-chars")
+                detail["configs"][name] = {"fixed": after}
+            elif (ca - cb) or (cb - ca):
                 detail["configs"][name] = {"fixed": after}
             elif len(R.samples) < 2:
                 R.samples.append({"case": key, "config": name, "doc": doc[:160], "fixed": after[:160], "fingerprint_nodes": len(a)})
